@@ -94,8 +94,15 @@ static void one(vh::Rng& r) {
    const Par p = gen(r);
    const J c = p.json();
    const double mHd2_in = r.U(-1e6, 1e6), mHu2_in = r.U(-1e6, 1e6);
-   MSSMNoFV_onshell_mass_eigenstates m; fill(m, p, mHd2_in, mHu2_in);
+   // one case in three on a long-lived object that carries the spectrum (and problem flags) of the previous cases: everything reported must refer to the current parameters
+   static thread_local MSSMNoFV_onshell_mass_eigenstates longlived;
+   const bool reuse = out->cur % 3 == 2;
+   MSSMNoFV_onshell_mass_eigenstates fresh_obj;
+   MSSMNoFV_onshell_mass_eigenstates& m = reuse ? longlived : fresh_obj;
+   fill(m, p, mHd2_in, mHu2_in);
+   m.get_problems().clear();   // flags are sticky at this level by design: MSSMNoFV_onshell::calculate_masses() clears them before calculate_DRbar_masses(), as done here
    m.calculate_DRbar_masses();
+   if (reuse) out->count("cases on the re-used long-lived object");
    ++out->conclusive;
    // soft Higgs masses are an output of the internal EWSB solution and must be restored
    clause("EWSB", "mHd2-mHu2-restored", (vh::same_bits(m.get_mHd2(), mHd2_in) && vh::same_bits(m.get_mHu2(), mHu2_in)) ? 0 : 1, 0, c);
